@@ -114,8 +114,8 @@ let check_line (l : string) : string =
     expect t "PAIRED"; let paired = next_bool t in
     expect t "HANG"; let hang = next_bool t in
     if hang then Printf.sprintf "ORACLE C09.shared_tag_request_never_completed n=%d" n
-    else if not order then Printf.sprintf "ORACLE C09.shared_tag_completions_out_of_order n=%d" n
-    else if not paired then Printf.sprintf "ORACLE C09.shared_tag_reply_paired_with_wrong_request n=%d" n
+    else if not order then Printf.sprintf "ORACLE C09.shared_tag_completions_out_of_order|C08.shared_tag_answers_delivered_out_of_order n=%d" n
+    else if not paired then Printf.sprintf "ORACLE C09.shared_tag_reply_paired_with_wrong_request|C08.shared_tag_answers_delivered_out_of_order n=%d" n
     else "OK"
   | "SOAK" ->
     let n = next_int t in expect t "OK"; let ok = next_bool t in
